@@ -23,7 +23,7 @@ def check(src, rep):
     rep.explanation = ("Decided: (HDLC) a typestate exploration of the abstract automaton (mode x pending-escape source x raw-history source) derived from the decision table shows that "
                        "state set while reading one frame is never consumed by the next one; the too-short, abort and over-long rows emit nothing and leave no partial frame; skipping in "
                        "hunt mode stops at the next flag. (P1) the end-line row and the guard's trip path clear the collected lines and return to hunt mode, and the hunt rows ignore "
-                       "everything but identification lines. NOT decided: the quantitative loss bounds ('except possibly the first', '2047 octets plus one frame length').")
+                       "everything but identification lines. The length guard's threshold is at most 2047 (necessary for the stated loss bound). NOT decided: the full quantitative loss bounds ('except possibly the first', 'plus one frame length').")
     rep.assumptions += ["reference automata of sa/hdlcref.py and sa/p1model.py"]
     res, nstates = leak_typestate(m)
     rep.count("abstract_states", nstates)
@@ -39,6 +39,14 @@ def check(src, rep):
                 rep.violation("R2", "hdlc.HdlcFrameReader.read", "row:over-long", "an over-long frame is not abandoned completely", m.file, loc(m, sp), witness=f"[{sp.guard_text()}] => {sp.post.brief()}")
     if n:
         rep.ok("R2", "over-long rows", f"{n} path(s): length guard true => nothing emitted, current frame dropped")
+    # the bound of the statement: a frame begun inside noise swallows at most 2047 octets before the length guard abandons it
+    thr = sorted({sp.m_thresholds[k] for sp in m.paths for k in sp.m_thresholds})
+    for t in thr:
+        if t > 2047:
+            rep.violation("R2", "hdlc.HdlcFrameReader.read", "loss-bound", f"a frame begun inside noise is abandoned only after {t} octets: clean frames starting more than 2047 octets plus one frame length "
+                          "after the noise are still swallowed (reader without octet stuffing)", m.file, m.read_fn.node.lineno, witness=f"length guard admits <= {t} octets; the statement's bound is 2047")
+    if thr and all(t <= 2047 for t in thr):
+        rep.ok("R2", "loss bound", f"length guard threshold(s) {thr}: a frame begun inside noise is abandoned after at most 2047 octets")
     emit_h(rep, m, fresh_only_at_flag(m), {"start-at-flag": "R2"})
     from sa.hdlcref import raw_history_values
     emit_h(rep, m, raw_history_values(m), {"raw-value": "R2"})
